@@ -1,1 +1,241 @@
-// harnesses added below
+//! property C17: host data converts to CEL values without loss of structure (one harness per Serializer method group)
+use crate::sym::{any, assume};
+use cel_interpreter::objects::{Key, Map};
+use cel_interpreter::{to_value, Value};
+use serde::Serialize;
+use std::collections::BTreeMap;
+use std::mem::forget;
+
+#[cfg(kani)]
+use crate::conv::{fixed_random_state, stub_format};
+
+#[cfg_attr(kani, kani::proof)]
+#[cfg_attr(kani, kani::unwind(6))]
+pub fn c17_signed_integers_become_int() {
+    let a: i8 = any();
+    let b: i16 = any();
+    let c: i32 = any();
+    let d: i64 = any();
+    assert!(matches!(to_value(a), Ok(Value::Int(x)) if x == a as i64));
+    assert!(matches!(to_value(b), Ok(Value::Int(x)) if x == b as i64));
+    assert!(matches!(to_value(c), Ok(Value::Int(x)) if x == c as i64));
+    assert!(matches!(to_value(d), Ok(Value::Int(x)) if x == d));
+}
+#[cfg_attr(kani, kani::proof)]
+#[cfg_attr(kani, kani::unwind(6))]
+pub fn c17_unsigned_integers_become_uint() {
+    let a: u8 = any();
+    let b: u16 = any();
+    let c: u32 = any();
+    let d: u64 = any();
+    assert!(matches!(to_value(a), Ok(Value::UInt(x)) if x == a as u64));
+    assert!(matches!(to_value(b), Ok(Value::UInt(x)) if x == b as u64));
+    assert!(matches!(to_value(c), Ok(Value::UInt(x)) if x == c as u64));
+    assert!(matches!(to_value(d), Ok(Value::UInt(x)) if x == d));
+}
+#[cfg_attr(kani, kani::proof)]
+#[cfg_attr(kani, kani::unwind(6))]
+pub fn c17_floats_bool_unit_option() {
+    let f: f64 = any();
+    let g: f32 = any();
+    let b: bool = any();
+    assert!(matches!(to_value(f), Ok(Value::Float(x)) if x.to_bits() == f.to_bits()));
+    assert!(matches!(to_value(g), Ok(Value::Float(x)) if x.to_bits() == (g as f64).to_bits()));
+    assert!(matches!(to_value(b), Ok(Value::Bool(x)) if x == b));
+    assert!(matches!(to_value(()), Ok(Value::Null)));
+    let o: Option<i32> = if b { Some(any()) } else { None };
+    match (o, to_value(o)) {
+        (None, Ok(Value::Null)) => {}
+        (Some(v), Ok(Value::Int(x))) => assert!(x == v as i64),
+        _ => assert!(false),
+    }
+}
+#[derive(Serialize)]
+struct Newtype(u16);
+#[derive(Serialize)]
+struct UnitStruct;
+
+/// sequences and tuples become lists of the converted elements, in order
+#[cfg_attr(kani, kani::proof)]
+#[cfg_attr(kani, kani::unwind(6))]
+pub fn c17_tuples_and_newtypes() {
+    let a: i32 = any();
+    let b: bool = any();
+    let c: u8 = any();
+    let r = to_value((a, b, c));
+    match &r {
+        Ok(Value::List(l)) => {
+            assert!(l.len() == 3);
+            assert!(matches!(l[0], Value::Int(x) if x == a as i64));
+            assert!(matches!(l[1], Value::Bool(x) if x == b));
+            assert!(matches!(l[2], Value::UInt(x) if x == c as u64));
+        }
+        _ => assert!(false),
+    }
+    forget(r);
+    let n: u16 = any();
+    assert!(matches!(to_value(Newtype(n)), Ok(Value::UInt(x)) if x == n as u64));
+    assert!(matches!(to_value(UnitStruct), Ok(Value::Null)));
+    let arr: [i16; 2] = [any(), any()];
+    let r = to_value(arr);
+    match &r {
+        Ok(Value::List(l)) => {
+            assert!(l.len() == 2);
+            assert!(matches!(l[0], Value::Int(x) if x == arr[0] as i64));
+            assert!(matches!(l[1], Value::Int(x) if x == arr[1] as i64));
+        }
+        _ => assert!(false),
+    }
+    forget(r);
+}
+
+#[derive(Serialize)]
+struct S {
+    a: i32,
+    b: bool,
+}
+#[derive(Serialize)]
+enum E {
+    Unit,
+    Newtype(i32),
+    Tuple(i32, bool),
+    Struct { a: u8 },
+}
+fn get<'a>(m: &'a Map, k: &str) -> Option<&'a Value> {
+    m.map.get(&Key::String(std::sync::Arc::new(k.to_string())))
+}
+
+/// structs become maps keyed by field name; data-carrying variants become single-entry maps keyed by the variant name
+#[cfg_attr(kani, kani::proof)]
+#[cfg_attr(kani, kani::unwind(12))]
+#[cfg_attr(kani, kani::stub(std::collections::hash_map::RandomState::new, fixed_random_state))]
+#[cfg_attr(kani, kani::stub(alloc::fmt::format, stub_format))]
+pub fn c17_struct_becomes_map() {
+    let a: i32 = any();
+    let b: bool = any();
+    let r = to_value(S { a, b });
+    match &r {
+        Ok(Value::Map(m)) => {
+            assert!(m.map.len() == 2);
+            assert!(matches!(get(m, "a"), Some(Value::Int(x)) if *x == a as i64));
+            assert!(matches!(get(m, "b"), Some(Value::Bool(x)) if *x == b));
+        }
+        _ => assert!(false),
+    }
+    forget(r);
+}
+#[cfg_attr(kani, kani::proof)]
+#[cfg_attr(kani, kani::unwind(12))]
+#[cfg_attr(kani, kani::stub(std::collections::hash_map::RandomState::new, fixed_random_state))]
+#[cfg_attr(kani, kani::stub(alloc::fmt::format, stub_format))]
+pub fn c17_enum_variants() {
+    let a: i32 = any();
+    let r = to_value(E::Unit);
+    assert!(matches!(&r, Ok(Value::String(s)) if s.as_str() == "Unit"));
+    forget(r);
+    let r = to_value(E::Newtype(a));
+    match &r {
+        Ok(Value::Map(m)) => {
+            assert!(m.map.len() == 1);
+            assert!(matches!(get(m, "Newtype"), Some(Value::Int(x)) if *x == a as i64));
+        }
+        _ => assert!(false),
+    }
+    forget(r);
+}
+#[cfg_attr(kani, kani::proof)]
+#[cfg_attr(kani, kani::unwind(12))]
+#[cfg_attr(kani, kani::stub(std::collections::hash_map::RandomState::new, fixed_random_state))]
+#[cfg_attr(kani, kani::stub(alloc::fmt::format, stub_format))]
+pub fn c17_enum_tuple_and_struct_variants() {
+    let a: i32 = any();
+    let b: bool = any();
+    let u: u8 = any();
+    let r = to_value(E::Tuple(a, b));
+    match &r {
+        Ok(Value::Map(m)) => {
+            assert!(m.map.len() == 1);
+            match get(m, "Tuple") {
+                Some(Value::List(l)) => {
+                    assert!(l.len() == 2);
+                    assert!(matches!(l[0], Value::Int(x) if x == a as i64));
+                    assert!(matches!(l[1], Value::Bool(x) if x == b));
+                }
+                _ => assert!(false),
+            }
+        }
+        _ => assert!(false),
+    }
+    forget(r);
+    let r = to_value(E::Struct { a: u });
+    match &r {
+        Ok(Value::Map(m)) => {
+            assert!(m.map.len() == 1);
+            match get(m, "Struct") {
+                Some(Value::Map(inner)) => assert!(matches!(get(inner, "a"), Some(Value::UInt(x)) if *x == u as u64)),
+                _ => assert!(false),
+            }
+        }
+        _ => assert!(false),
+    }
+    forget(r);
+}
+/// map keys: integers, bool and strings are accepted (int -> Key::Int, unsigned -> Key::Uint); other kinds are errors, never panics
+#[cfg_attr(kani, kani::proof)]
+#[cfg_attr(kani, kani::unwind(12))]
+#[cfg_attr(kani, kani::stub(std::collections::hash_map::RandomState::new, fixed_random_state))]
+#[cfg_attr(kani, kani::stub(alloc::fmt::format, stub_format))]
+pub fn c17_map_keys() {
+    let k: i32 = any();
+    let u: u16 = any();
+    let v: bool = any();
+    let mut m1 = BTreeMap::new();
+    m1.insert(k, v);
+    let r = to_value(m1);
+    match &r {
+        Ok(Value::Map(m)) => {
+            assert!(m.map.len() == 1);
+            assert!(matches!(m.map.get(&Key::Int(k as i64)), Some(Value::Bool(x)) if *x == v));
+        }
+        _ => assert!(false),
+    }
+    forget(r);
+    let mut m2 = BTreeMap::new();
+    m2.insert(u, v);
+    let r = to_value(m2);
+    match &r {
+        Ok(Value::Map(m)) => assert!(matches!(m.map.get(&Key::Uint(u as u64)), Some(Value::Bool(x)) if *x == v)),
+        _ => assert!(false),
+    }
+    forget(r);
+    let mut m3 = BTreeMap::new();
+    m3.insert(v, k);
+    let r = to_value(m3);
+    match &r {
+        Ok(Value::Map(m)) => assert!(matches!(m.map.get(&Key::Bool(v)), Some(Value::Int(x)) if *x == k as i64)),
+        _ => assert!(false),
+    }
+    forget(r);
+}
+#[cfg_attr(kani, kani::proof)]
+#[cfg_attr(kani, kani::unwind(12))]
+#[cfg_attr(kani, kani::stub(std::collections::hash_map::RandomState::new, fixed_random_state))]
+#[cfg_attr(kani, kani::stub(alloc::fmt::format, stub_format))]
+pub fn c17_unsupported_map_keys_are_errors() {
+    let k: i32 = any();
+    let mut m1 = BTreeMap::new();
+    m1.insert((k, k), true);
+    let r = to_value(m1);
+    assert!(r.is_err());
+    forget(r);
+    let mut m2: BTreeMap<Option<i32>, bool> = BTreeMap::new();
+    m2.insert(None, true);
+    let r = to_value(m2);
+    assert!(r.is_err());
+    forget(r);
+    let mut m3: BTreeMap<(), bool> = BTreeMap::new();
+    m3.insert((), false);
+    let r = to_value(m3);
+    assert!(r.is_err());
+    forget(r);
+}
